@@ -190,6 +190,22 @@ def check_rigid(r) -> list[Fail]:
             same_shape(before, m.coords, "transform")
         else:
             idx = sorted({i % n for i in r["idx"]})
+            if r.get("dups") and not r.get("parent_edit"):
+                # a selection that names an atom more than once (chained neighbour shells, [i, j, i]): still moved exactly once
+                sel_list = [i % n for i in r["idx"]] + [idx[0]]
+                sub = m.substructure(sel_list)
+                if op == "sub_translate":
+                    sub.translate(v)
+                    exp = before[idx] + v
+                else:
+                    sub.transform(R)
+                    exp = before[idx] @ R
+                rest = [i for i in range(n) if i not in idx]
+                if not np.array_equal(m.coords[rest], before[rest]):
+                    fails.append(Fail(f"rigid:{op}:unselected-atoms-moved", "selection with repeated atoms"))
+                if not np.allclose(m.coords[idx], exp, atol=1e-9):
+                    fails.append(Fail(f"rigid:{op}:selected-atoms-wrong:repeated-atom-in-selection", f"selection {sel_list}"))
+                return fails
             sub = m.substructure(idx)
             pe = r.get("parent_edit", 0)
             if pe and r["rseed"] % 2:
@@ -276,7 +292,7 @@ def strat_rigid(tier):
     return st.fixed_dictionaries({
         "op": st.sampled_from(["translate", "transform", "sub_translate", "sub_transform", "ens_translate1", "ens_translate2", "ens_rotate1", "ens_rotate_per_conf", "center_at_atom", "center_at_core"]),
         "mol": ensr, "rseed": st.integers(0, 10**6), "vec": st.lists(st.floats(-20, 20), min_size=3, max_size=3), "idx": st.lists(st.integers(0, 60), min_size=1, max_size=6),
-        "parent_edit": st.sampled_from([0, 0, 1, 1, 2]),
+        "parent_edit": st.sampled_from([0, 0, 1, 1, 2]), "dups": st.sampled_from([False, False, True]),
     })
 
 
